@@ -148,7 +148,9 @@ def get_cauchy_point(
     if iprint >= 99 and logger is not None:
         logger.info("---------------- CAUCHY entered-------------------")
 
-    eps_f_sec = 1e-30
+    # floor of the second derivative relative to its initial value, as in the Fortran
+    # code (f2 = max(epsmch * f2_org, f2)): below that, f2 is pure cancellation noise
+    eps_f_sec = np.finfo(float).eps
     x_cp: NDArrayFloat = x.copy()
 
     # To define the breakpoints in each coordinate direction, we compute
